@@ -8,6 +8,7 @@ package smtp
 
 import (
 	"bufio"
+	"crypto/tls"
 	"io"
 	"net"
 	"net/textproto"
@@ -110,3 +111,7 @@ func VWriteError(w io.Writer, code int, enh EnhancedCode, err error) {
 func (s *Server) VHandleConn(c net.Conn) error {
 	return s.handleConn(newConn(c, s))
 }
+
+// VSetStartTLSHook installs f as the package's testHookStartTLS (the hook the
+// package's own tests use to adjust the tls.Config of Client.startTLS).
+func VSetStartTLSHook(f func(*tls.Config)) { testHookStartTLS = f }
